@@ -3,6 +3,7 @@ package report
 
 import (
 	"encoding/json"
+	"hash/fnv"
 	"os"
 	"sort"
 )
@@ -21,22 +22,22 @@ type Known struct {
 }
 
 type Report struct {
-	Property           string         `json:"property"`
-	Evaluations        int            `json:"evaluations"`
-	DistinctNontrivial int            `json:"distinct_nontrivial"`
-	Rule               string         `json:"rule"`
-	Samples            []string       `json:"samples"`
+	Property           string                    `json:"property"`
+	Evaluations        int                       `json:"evaluations"`
+	DistinctNontrivial int                       `json:"distinct_nontrivial"`
+	Rule               string                    `json:"rule"`
+	Samples            []string                  `json:"samples"`
 	Histograms         map[string]map[string]int `json:"histograms"`
-	Disagreements      []Disagreement `json:"disagreements"`
-	Known              []Known        `json:"known_findings"`
-	Notes              []string       `json:"notes"`
-	Exhaustive         bool           `json:"exhaustive,omitempty"`
+	Disagreements      []Disagreement            `json:"disagreements"`
+	Known              []Known                   `json:"known_findings"`
+	Notes              []string                  `json:"notes"`
+	Exhaustive         bool                      `json:"exhaustive,omitempty"`
 
-	distinct map[string]struct{}
+	distinct map[uint64]struct{}
 }
 
 func New(prop string) *Report {
-	return &Report{Property: prop, Histograms: map[string]map[string]int{}, distinct: map[string]struct{}{}}
+	return &Report{Property: prop, Histograms: map[string]map[string]int{}, distinct: map[uint64]struct{}{}}
 }
 
 func (r *Report) Hist(name, key string) {
@@ -53,8 +54,12 @@ func (r *Report) Hist(name, key string) {
 func (r *Report) Case(key string, nontrivial bool) {
 	r.Evaluations++
 	if nontrivial {
-		if _, ok := r.distinct[key]; !ok {
-			r.distinct[key] = struct{}{}
+		// keyed by a 64-bit hash: inputs can be megabytes and runs millions of cases
+		h := fnv.New64a()
+		h.Write([]byte(key))
+		k := h.Sum64()
+		if _, ok := r.distinct[k]; !ok {
+			r.distinct[k] = struct{}{}
 			r.DistinctNontrivial++
 		}
 	}
